@@ -26,6 +26,7 @@ pub struct ChunkDeserializer {
     current_payload_data: BytesMut,
     buffer: BytesMut,
     previous_headers: HashMap<u32, ChunkHeader>,
+    partial_payloads: HashMap<u32, BytesMut>,
 }
 
 enum ParsedValue<T> {
@@ -62,6 +63,7 @@ impl ChunkDeserializer {
             current_stage: ParseStage::Csid,
             buffer: BytesMut::with_capacity(4096),
             previous_headers: HashMap::new(),
+            partial_payloads: HashMap::new(),
             current_payload: MessagePayload::new(),
             current_payload_data: BytesMut::new(),
         }
@@ -220,6 +222,13 @@ impl ChunkDeserializer {
                 Some(header) => header,
             },
         };
+
+        // Chunks of messages on different chunk streams may be interleaved, so continue with
+        // whatever part of a message was already received on this chunk stream
+        self.current_payload_data = self
+            .partial_payloads
+            .remove(&csid)
+            .unwrap_or_else(BytesMut::new);
 
         let _ = self.buffer.split_to(next_index as usize);
         self.current_stage = ParseStage::InitialTimestamp;
@@ -408,6 +417,11 @@ impl ChunkDeserializer {
 
             let payload = mem::replace(&mut self.current_payload, MessagePayload::new());
             *message_to_return = Some(payload)
+        } else {
+            // Message is not complete yet, keep what we have until the next chunk on this csid
+            let partial = mem::replace(&mut self.current_payload_data, BytesMut::new());
+            self.partial_payloads
+                .insert(self.current_header.chunk_stream_id, partial);
         }
 
         // This completes the current chunk, so cycle the header into the map and start a new one
